@@ -3,9 +3,9 @@ import KrroodVerif.Model.Dao
 import KrroodVerif.Drive.C04
 /-!
 Driver of C05: `to_dao` → flush → load in a fresh session through `via` → `from_dao`, plus row counts per table.
-`model=` is the model of today's code (all open quirks on); the unit of work processes the sources of a
-ONETOMANY-inferred reference in an unspecified order, and each open finding may be repaired separately, so every
-further admissible outcome is printed as `model_<i>=`.
+`model=` is the model of today's code (the open quirks F-C05-1 and F-C05-3 on; F-C05-2/4/5 are repaired); the unit
+of work processes the sources of a ONETOMANY-inferred reference in an unspecified order, and each open finding may
+be repaired separately, so every further admissible outcome is printed as `model_<i>=`.
 -/
 namespace KrroodVerif.Drive.C05
 open KrroodVerif.Dao
@@ -41,30 +41,17 @@ def run (s : Sexp) : String :=
       let dh := st.out
       let os := orders dh
       let bools := [true, false]
-      let qs : List StoreQuirks := bools.flatMap fun a => bools.flatMap fun b => bools.map fun d => ⟨a, b, d⟩
+      -- open: F-C05-1 (direction inference) and F-C05-3 (uniquing loader): each may be repaired separately, so both
+      -- settings are admissible. Repaired in /repo: F-C05-2 (9a6f576), F-C05-4 (453154d),
+      -- F-C05-5 (76e196d): `from_dao` is the copy that never memoises the intermediate (stale := false), and no
+      -- temporary-parent collision or lost-parent variant is admissible any more.
+      let qs : List StoreQuirks := bools.flatMap fun a => bools.map fun b => ⟨a, b, false⟩
       let results := qs.flatMap fun q => (if q.selfRef then os else os.take 1).map fun o =>
         persistReload q o unmap c.via c.heap c.roots
-      -- F-C05-4 (= F-C04-2): every admissible outcome of temporary-parent id collisions in from_dao
-      -- F-C05-5 (= F-C04-3) applied or repaired, then every outcome of temporary-parent id collisions
-      let variants (deepFixed : Bool) : Option (List Nat × Heap × DB) → List String := fun r =>
-        match r with
-        | some (roots, h, db) =>
-          let out := if deepFixed then h else dropDeepParent h
-          let cs := staleChoices out [] (subSlotsD deepFixed out)
-          (cs.take 32).map fun (ch : List (Nat × Nat)) => showResult (some (roots, staleParent out ch, db))
-        | none => ["error:model"]
-      -- F-C05-5 is repaired in /repo (fix commit 76e196d): only the repaired variants are admissible now
-      let all := results.flatMap (variants true)
-      let (trig4, trig5) := match results.head? with
-        | some (some (_, h, _)) => (trigStaleParent h, false)
-        | _ => (false, false)
-      let distinct := dedupStrings all
+      let distinct := dedupStrings (results.map showResult)
       let spec := canon c.heap c.roots ++ " rows:" ++ showCounts (specCounts c.heap c.roots)
       let trig := (if trigSelfRef dh then ["F-C05-1"] else [])
-        ++ (if trigStale unmap c.heap c.roots then ["F-C05-2"] else [])
         ++ (if trigDup dh then ["F-C05-3"] else [])
-        ++ (if trig4 then ["F-C05-4"] else [])
-        ++ (if trig5 then ["F-C05-5"] else [])
       let models := match distinct with
         | [] => "model=error:model"
         | m :: rest => "\t".intercalate (s!"model={m}" :: (rest.zipIdx.map fun (p : String × Nat) => s!"model_{p.2 + 1}={p.1}"))
